@@ -37,7 +37,7 @@ class GradientCase(Case):
     def __init__(self, cid, *, N, R, P, K=1, C=0, mask=None, design="random", shared=False, seed=0, pmin=1, rmin=1,
                  merge=False, estimators=("mean",), obj_est=None, con_est=None, weights=None, symflags="all",
                  boundary="truncate_both", lower=-100.0, upper=100.0, x=None, magnitude=0.1, split=False,
-                 identical=False, sampler_map=None):
+                 identical=False, sampler_map=None, filters=(), obj_filt=None):
         self.id = cid
         self.N, self.R, self.P, self.K, self.C = N, R, P, K, C
         self.mask = list(mask) if mask is not None else None
@@ -71,8 +71,9 @@ class GradientCase(Case):
             boundary=boundary, pmin=pmin, rmin=rmin, merge=merge, estimators=estimators, obj_est=obj_est, con_est=con_est,
             samplers=[{"method": "stub/x", "shared": shared}] if sampler_map is None else
             [{"method": f"stub/s{i}", "shared": shared} for i in range(max(sampler_map) + 1)],
-            sampler_map=sampler_map,
+            sampler_map=sampler_map, filters=filters, obj_filt=obj_filt,
         )
+        self.filters, self.obj_filt = filters, obj_filt
         # the deltas the real code will see (concrete): computed by the real _perturb_variables at run time;
         # here only for the conditioning premise, recomputed from the reported perturbed variables in props
 
@@ -152,7 +153,7 @@ class GradientCase(Case):
     def props(self, env, inp, oc):
         if not oc.ok:
             from .common import too_few
-            if too_few(oc.exc) and "stddev" in self.estimators:
+            if too_few(oc.exc) and ("stddev" in self.estimators or self.filters):
                 return [("abort_is_too_few_realizations", SB(True))]
             return [("no_internal_exception:" + type(oc.exc).__name__, SB(False))]
         N, R, P, K, C = self.N, self.R, self.P, self.K, self.C
@@ -182,6 +183,7 @@ class GradientCase(Case):
         we = [ite(failed[r], ZERO, w[r]) for r in range(R)]
         tot = ssum(we)
         wn = [x / tot for x in we]
+        rows_w = vals(gr.realizations.objective_weights)
         if self.merge:
             premise = self.merged_premise(delta, flags, we)
         else:
@@ -200,8 +202,15 @@ class GradientCase(Case):
                         props.append((f"{kind}{k}.v{j}.fixed_variable_is_zero", exact(out, ZERO)))
                         continue
                     if method in ("mean", "default"):
-                        spec = ssum([wn[r] * A[r, f, j] for r in range(R)])
-                        props.append((f"{kind}{k}.v{j}.mean_gradient", Implies(premise, gclose(out, spec, SR(Fraction(SL))))))
+                        wnk, prem_k = wn, premise
+                        if kind == "obj" and rows_w is not None and self.obj_filt is not None and self.obj_filt[k] >= 0:
+                            # a filtered objective: the weights in force are the reported filter row (C04/C05 decide it)
+                            wek = [ite(failed[r], ZERO, rows_w[k, r]) for r in range(R)]
+                            totk = ssum(wek)
+                            wnk = [x / totk for x in wek]
+                            prem_k = And(totk > 0, *[Implies(wek[r] > 0, ens.conditioning_premise(delta[r], flags, r, P)) for r in range(R)])
+                        spec = ssum([wnk[r] * A[r, f, j] for r in range(R)])
+                        props.append((f"{kind}{k}.v{j}.mean_gradient", Implies(prem_k, gclose(out, spec, SR(Fraction(SL))))))
                         if self.merge and self.shared_design:
                             # recorded finding: the merged solve returns the exact gradient divided by the number
                             # of contributing realizations.  Anything else is still a violation.
